@@ -214,7 +214,15 @@ func (s *Sched) record(t *thread, site string, accs []Acc, sched bool) {
 	for _, a := range accs {
 		var k accKey
 		typ := "global"
-		if a.Elem != 0 {
+		if a.Elem == 'o' || a.Elem == 'O' {
+			// an object of another package, identified by its address
+			v := reflect.ValueOf(a.Base)
+			if v.Kind() != reflect.Ptr || v.IsNil() {
+				continue
+			}
+			k = accKey{v.Pointer(), "*"}
+			typ = "object " + v.Type().String()
+		} else if a.Elem != 0 {
 			// elements of a slice / map: always fully recorded, keyed by the backing array or map
 			// header, so that an access through a local alias meets the accesses of the owner
 			v := reflect.ValueOf(a.Base)
